@@ -136,6 +136,12 @@ TRUSTED = [
     "scaled targets, so the metamorphic clause asks for the SAME proposal; two absolute thresholds of scikit-learn limit the scale-free range: "
     "trees treat an impurity <= 2.2e-16 as pure (identity scaler + forest + tiny targets: known finding F70) and MinMaxScaler treats a data "
     "range < 2.2e-15 as zero (such cases are not generated)",
+    "improvement-based acquisitions (EI / PI / their d variants / gp_hedge, xi = 0) are run end to end with the spy surrogate and ONE common "
+    "positive predicted std (64 for scaled targets, 4 x spread under the identity scaler): EI and PI are then strictly decreasing in the "
+    "predicted mean and far from underflow, so the proposal is determined; stream 'fit_targets' observes the incumbent y_opt through a "
+    "wrapper on deephyper.skopt.optimizer.optimizer._gaussian_acquisition",
+    "objective offsets (+-1000, +-1024, -4096, +-2^20) are dyadic: the shifted history is exact; the offset clause is asked for a single "
+    "objective (any scaler) and for several objectives with the identity scaler",
     "one-shot batches (topk / boltzmann) are asked with filter_duplicated=True on a search that has not asked anything before, so the cached "
     "candidate list holds every configuration once; boltzmann only guarantees its FIRST element (argmax of -acquisition), the rest is sampled",
     "acquisition on real forests: zero-std candidates are compared with each other and with one positive-std candidate at a time (weak "
@@ -546,7 +552,7 @@ def make_optimizer(n, pol="max", scaler="identity", kind="Chebyshev", w=None, ac
 
     Spy = spy_class()
     return Optimizer([Integer(0, max(1, n - 1), name="x")], base_estimator=Spy(), n_initial_points=0, acq_func=acq,
-                     acq_func_kwargs={"kappa": kappa}, acq_optimizer="sampling",
+                     acq_func_kwargs={"kappa": kappa, "xi": 0.0}, acq_optimizer="sampling",
                      acq_optimizer_kwargs={"n_points": n_points, "filter_duplicated": False, "filter_failures": pol},
                      random_state=0, objective_scaler=scaler, moo_scalarization_strategy=kind, moo_scalarization_weight=w), Spy
 
@@ -557,14 +563,37 @@ def check_fit_targets(case):
     m = model()
     import copy
 
-    par = case.get("par")
-    opt, Spy = make_optimizer(len(ys), pol, scaler, scalariser_instance(kind, n_obj, w, par) if par is not None else kind, w)
+    import deephyper.skopt.optimizer.optimizer as optmod
+
+    par, acq = case.get("par"), case.get("acq", "LCB")
+    opt, Spy = make_optimizer(len(ys), pol, scaler, scalariser_instance(kind, n_obj, w, par) if par is not None else kind, w, acq=acq)
     X = [[i] for i in range(len(ys))]
     told = ["F" if y is None else (y[0] if n_obj == 1 else list(y)) for y in ys]
     told0 = copy.deepcopy(told)
-    for a, b in segments(len(ys), case.get("cuts")):   # the history arrives in 1-4 tells; every tell refits the surrogate
-        opt.tell(X[a:b], told[a:b])
+    # the incumbent handed to the acquisition function (EI / PI: improvement over y_opt) during each fit
+    incumbents, orig_acq = [], optmod._gaussian_acquisition
+
+    def acq_spy(*a, **kw):
+        incumbents.append((len(Spy.fits), kw.get("y_opt", a[2] if len(a) > 2 else None)))
+        return orig_acq(*a, **kw)
+
+    optmod._gaussian_acquisition = acq_spy
+    try:
+        for a, b in segments(len(ys), case.get("cuts")):   # the history arrives in 1-4 tells; every tell refits the surrogate
+            opt.tell(X[a:b], told[a:b])
+    finally:
+        optmod._gaussian_acquisition = orig_acq
     fitted = Spy.fits[-1]
+    # ... must be the smallest (best) of the values the surrogate of that fit was trained on - same scaler, same scalarisation, same imputation
+    for nfit, y_opt in incumbents:
+        tgt = Spy.fits[nfit - 1]
+        if y_opt is None or not (F(y_opt) in Fl(tgt) and model().call(O_PICKMAX, qpack([-F(v) for v in tgt] + [-F(y_opt)], len(tgt)))):
+            return dict(ok=False, kind="oracle", clause="incumbent_not_the_best_fit_target", nontrivial=True, desc=["incumbent"],
+                        sig=dict(clause="incumbent_not_the_best_fit_target", scaler=scaler, scalarisation=kind if n_obj > 1 else "none", acq_func=acq),
+                        detail=dict(y_opt=None if y_opt is None else float(y_opt), fit_targets=tgt, told=told0))
+    if not incumbents:
+        return dict(ok=False, kind="corr", clause="acquisition_not_evaluated", nontrivial=True, desc=["incumbent"],
+                    sig=dict(clause="acquisition_not_evaluated"), detail=dict(told=told0))
     # scaling / scalarising / imputing work on copies: the caller's lists and the optimizer's own history keep the told values
     if told != told0 or list(opt.yi) != told0:
         return dict(ok=False, kind="oracle", clause="told_values_modified", nontrivial=True, desc=["mutation"],
@@ -574,7 +603,7 @@ def check_fit_targets(case):
     sk = SCKIND["identity" if scaler == "auto" else scaler]   # the spy is not a forest: auto = identity
     utag = "zero" if sk != 0 else utopia_tag(good_rows)
     res = base_res(["n_obj=%d" % n_obj, "scaler=" + scaler, "kind=" + kind, "pol=" + pol, "fails=%d" % (len(ys) - len(good_idx)),
-                    sign_tag(good_rows), "tells=%d" % len(segments(len(ys), case.get("cuts"))), "scalariser=" + ("object" if par is not None else "name")],
+                    sign_tag(good_rows), "tells=%d" % len(segments(len(ys), case.get("cuts"))), "scalariser=" + ("object" if par is not None else "name"), "acq=" + acq],
                    nontrivial=len(set(map(tuple, good_rows))) > 1,
                    scalarisation=kind if n_obj > 1 else "none", scaler=scaler, utopia=utag if n_obj > 1 else "n/a")
     if len(fitted) != len(ys):
@@ -622,6 +651,8 @@ def gen_fit_targets(count):
         yield dict(ys=[[-103.0, -103.0], [-101.0, -101.0]], n_obj=2, pol="max", scaler="identity", kind="Chebyshev", w=[0.5, 0.5])
         yield dict(ys=[[-10.0, -5.0], [-11.0, -7.0], [-12.0, -9.0], [-13.0, -11.0]], n_obj=2, pol="max", scaler="identity", kind="Chebyshev",
                    w=[0.5, 0.5], cuts=[2])
+        yield dict(ys=[[-1003.0], [-1001.0], [-1007.0], [-1005.0]], n_obj=1, pol="max", scaler="quantile-uniform", kind="Linear", w=[1.0], cuts=[2],
+                   acq="EI")
         for i in range(k):
             n_obj = [1, 2, 3][i % 3]
             n = rng.randint(2, 5) if tier == "search" else rng.choice([2, 3, 5, 9])
@@ -636,6 +667,7 @@ def gen_fit_targets(count):
                 rows[0], rows[j] = rows[j], rows[0]
             case = dict(ys=rows, n_obj=n_obj, pol=["max", "mean"][(i // 7) % 2], scaler=scalers[(i // 2) % 4], kind=kinds[i % 5],
                         w=gen_weights(rng, n_obj, positive=True if i % 4 else None), cuts=gen_cuts(rng, n))
+            case["acq"] = rng.choice(["LCB", "LCB", "LCBd", "EI", "PI", "EId", "PId", "gp_hedge", "gp_hedged"])
             if n_obj > 1 and rng.random() < 0.25:   # a scalariser object with its own parameter instead of a name
                 case["par"] = {"AugChebyshev": rng.choice([0.25, 2.0 ** -10, 0.0]), "PBI": rng.choice([4.0, 0.5, 0.0]),
                                "Quadratic": rng.choice([8.0, 2.0, 1.0])}.get(case["kind"], 0.0)
@@ -675,6 +707,8 @@ ZCAT = ["a", "b", "c", "d"]
 def make_cbo(d, n_x, surrogate, n_obj_kind="Chebyshev", w=None, strategy="cl_max", ff="min", acq="UCB", kappa=0.0, scaler="identity",
              n_points=16, seed=0, surrogate_kwargs=None, n_z=1, filter_duplicated=False, zcat=False, **extra):
     from deephyper.hpo import CBO, HpProblem
+
+    extra.setdefault("xi", 0.0)   # EI / PI: improvement over the incumbent itself (the proposal on a finite told set stays determined)
 
     pb = HpProblem()
     pb.add_hyperparameter((0, max(1, n_x - 1)), "x")
@@ -1120,11 +1154,18 @@ def check_e2e(case):
     fails, ff, par, bounds = set(case.get("fails") or []), case.get("ff", "min"), case.get("par"), case.get("lower_bounds")
     oscale = case.get("oscale")   # the objectives (and what is on their scale) multiplied by 2**oscale: exact, the pipeline is scale-free
     base_objs, base_stds, base_bounds = objs, case.get("stds"), bounds
+    ooffset = case.get("ooffset")   # a constant added to every objective (dyadic: exact); see where the pipeline is offset-free below
     if oscale:
         c = 2.0 ** oscale
         objs = [[v * c for v in r] for r in objs]
         bounds = None if bounds is None else [None if b is None else b * c for b in bounds]
-        case = dict(case, objs=objs, stds=None if base_stds is None else [sd * c for sd in base_stds], lower_bounds=bounds)
+        # the spy's predicted std is on the scale of the fitted targets: it follows the objectives only under the identity scaler
+        std_c = c if scaler in ("identity", "auto") else 1.0
+        case = dict(case, objs=objs, stds=None if base_stds is None else [sd * std_c for sd in base_stds], lower_bounds=bounds)
+    elif ooffset:
+        objs = [[v + ooffset for v in r] for r in objs]
+        bounds = None if bounds is None else [None if b is None else b + ooffset for b in bounds]
+        case = dict(case, objs=objs, lower_bounds=bounds)
     zcat, otype, path = bool(case.get("zcat")), case.get("otype", "float"), case["path"]
     m = model()
     zval = (lambda j: ZCAT[j]) if zcat else (lambda j: j)
@@ -1146,7 +1187,8 @@ def check_e2e(case):
                     "tells=%d" % len(segs), "strategy=%s" % strategy, "batch=%d" % batch, "fails=%d" % min(len(fails), 3),
                     "asks-between-tells" if case.get("interleave") else "no-asks-between", "scalariser=" + ("object" if par is not None else "name"),
                     "bounds" if bounds else "no-bounds", "otype=" + otype, "z=" + ("cat" if zcat else "int") if nz > 1 else "z=-",
-                    "pattern=" + case.get("pattern", "-"), "oscale=2^%d" % oscale if oscale else "oscale=1"],
+                    "pattern=" + case.get("pattern", "-"), "oscale=2^%d" % oscale if oscale else "oscale=1",
+                    "offset=%+g" % ooffset if ooffset and not oscale else "offset=0"],
                    nontrivial=len(set(map(tuple, objs))) > 1 and not best_first,
                    scalarisation=kind if n_obj > 1 else "none", scaler=eff_scaler, utopia=utag, surrogate=surrogate, n_obj=n_obj,
                    objective_scale="one" if not oscale else ("tiny" if oscale < 0 else "huge"), path=path)
@@ -1216,14 +1258,23 @@ def check_e2e(case):
     idxs = [to_idx(nxt) for nxt in asked]
     if any(i is None for i in idxs):
         return fail(res, "oracle", "proposal_outside_space", dict(proposal=repr(asked)))
-    if oscale:
-        # metamorphic: the same history with the objectives on their original scale (same seeds) gives the same proposal(s)
+    if oscale or ooffset:
+        # metamorphic: the same history with the objectives on their original scale / without the offset (same seeds) gives the same
+        # proposal(s) - compared by the objective vectors of the proposed configurations (equal objectives are interchangeable)
         asked1, _ = run_impl(base_objs, base_stds, base_bounds)
         idxs1 = [to_idx(nxt) for nxt in asked1]
-        same = sorted(idxs1) == sorted(idxs) if strategy in ("topk", "qUCB", "qUCBd") else (idxs1[:1] == idxs[:1] if strategy == "boltzmann" else idxs1 == idxs)
+        vec = lambda l: [tuple(base_objs[i]) for i in l if i is not None]
+        if strategy in ("topk", "qUCB", "qUCBd"):
+            same = sorted(vec(idxs1)) == sorted(vec(idxs))
+        elif strategy == "boltzmann":
+            same = vec(idxs1[:1]) == vec(idxs[:1])
+        else:
+            same = vec(idxs1) == vec(idxs)
         if not same:
-            return fail(res, "oracle", "proposal_changes_with_objective_scale",
-                        dict(scale="2**%d" % oscale, proposal_scaled=idxs, proposal_unscaled=idxs1, objectives=base_objs))
+            what = "scale" if oscale else "offset"
+            return fail(res, "oracle", "proposal_changes_with_objective_" + what,
+                        dict(transform="*2**%d" % oscale if oscale else "%+g" % ooffset, proposal_transformed=idxs, proposal_original=idxs1,
+                             objectives=base_objs))
     if again is not None:
         idxs2 = [to_idx(nxt) for nxt in again]
         if idxs2 != idxs[:1]:
@@ -1319,6 +1370,10 @@ def gen_e2e(count):
         # objectives of the order 1e-12 with the default scaler of the forests (quantile-uniform): still the largest one (x = 5)
         yield dict(n_obj=1, kind="Linear", scaler="auto", w=[1.0], surrogate="ET", acq="UCBd", path="tell", nx=8, nz=1,
                    objs=[[3.0], [1.0], [7.0], [5.0], [2.0], [8.0], [4.0], [6.0]], seed=5, cuts=[4], strategy="cl_max", batch=1, oscale=-40)
+        # expected improvement with positively offset objectives and a scaled target: the incumbent must be on the scale of the targets
+        yield dict(n_obj=1, kind="Linear", scaler="quantile-uniform", w=[1.0], surrogate="SPY", acq="EI", path="tell", nx=8, nz=1,
+                   objs=[[1003.0], [1001.0], [1007.0], [1005.0], [1002.0], [1008.0], [1004.0], [1006.0]], seed=6, cuts=[4], strategy="cl_max",
+                   batch=1, stds=[64.0] * 8)
         # one-shot batch: the two largest objectives (x = 2, 3)
         yield dict(n_obj=1, kind="Linear", scaler="identity", w=[1.0], surrogate="RF", acq="UCB", path="tell", nx=4, nz=1,
                    objs=[[3.0], [1.0], [7.0], [5.0]], seed=2, strategy="topk", batch=2)
@@ -1412,8 +1467,26 @@ def gen_e2e(count):
             if n_obj > 1 and rng.random() < 0.1:
                 ref = rng.choice(case["objs"])
                 case["lower_bounds"] = [ref[j] if rng.random() < 0.6 else None for j in range(n_obj)]
+            # ---- improvement-based acquisitions (EI, PI, their "d" variants, gp_hedge; xi = 0): with a surrogate that reproduces its targets and
+            #      one common positive std, EI and PI are strictly decreasing in the predicted mean, so the proposal is still the best told
+            #      candidate - PROVIDED the incumbent y_opt is on the scale of the fitted targets.  Scaled targets live in [0, 1] (std 64 keeps
+            #      EI / PI far from underflow for every scalarisation); identity scaler, single objective: std = 4 * spread.
+            if sur == "SPY" and not kappa_case and case["strategy"] not in ("qUCB", "qUCBd") and case.get("pattern") not in ("ulp", "huge") \
+                    and rng.random() < 0.6:
+                if n_obj == 1 and rng.random() < 0.3:
+                    col = [r[0] for r in case["objs"]]
+                    case.update(scaler="identity", stds=[4.0 * max(max(col) - min(col), 1.0)] * N)
+                else:
+                    case.update(scaler=rng.choice(["minmax", "quantile-uniform"]), stds=[64.0] * N)
+                case["acq"] = rng.choice(["EI", "PI", "EId", "PId", "gp_hedge", "gp_hedged"])
+            # ---- the same problem with a constant added to every objective (where the pipeline is offset-free and the sum exact: a single
+            #      objective with any scaler, several objectives with the identity scaler - the utopia-relative scalarisation absorbs it)
+            # (not the "close" pattern either: an offset 1e3..1e6 on a spread of 1e-5 is below what a forest's variance criterion resolves)
+            if case.get("pattern") not in ("ulp", "huge", "close") and (n_obj == 1 or case["scaler"] == "identity" or
+                                                                (case["scaler"] == "auto" and sur == "SPY")) and rng.random() < 0.3:
+                case["ooffset"] = rng.choice([1000.0, -1000.0, 1024.0, -4096.0, 2.0 ** 20, -2.0 ** 20])
             # ---- the same problem with the objectives rescaled by a tiny / huge positive factor (a power of two: exact)
-            if rng.random() < 0.25:
+            if not case.get("ooffset") and rng.random() < 0.25:
                 case["oscale"] = rng.choice([-50, -43, -40, -33, -30, -20, 20, 30, 40, 50])
                 if case["scaler"] == "minmax" and case["oscale"] < 0:
                     # sklearn's MinMaxScaler treats a data range below 10*eps = 2.2e-15 as zero (an ABSOLUTE threshold of the library):
@@ -1438,6 +1511,8 @@ def shrink_e2e(case):
         yield dict(case, batch=case["batch"] - 1)
     if case.get("oscale"):
         yield dict(case, oscale=None)
+    if case.get("ooffset"):
+        yield dict(case, ooffset=None)
     cuts = case.get("cuts") or []
     for i in range(len(cuts)):
         yield dict(case, cuts=cuts[:i] + cuts[i + 1:], interleave=None)
